@@ -97,3 +97,42 @@ def caught_origin(path, ev):
 
 def txt(n):
     return U(n) if n is not None else None
+
+
+
+def shared_table_aliasing(ctx, attrs, what):
+    """the per-key sub-tables of a two-level table are distinct objects: a
+    construction that hands the same mutable object to every key
+    (`dict.fromkeys(keys, {})`, `{k: shared for k in keys}` with a table built
+    outside the comprehension) makes an entry made under one key visible
+    under all of them."""
+    import ast as _ast
+    m = ctx.model
+    n = 0
+    for f in m.funcs:
+        for node in _ast.walk(f.node):
+            if not isinstance(node, (_ast.Assign, _ast.AnnAssign)):
+                continue
+            tg = node.targets if isinstance(node, _ast.Assign) else \
+                [node.target]
+            names = {t.attr for t in tg if isinstance(t, _ast.Attribute)}
+            if not (names & set(attrs)) or node.value is None:
+                continue
+            n += 1
+            bad = None
+            for x in _ast.walk(node.value):
+                if isinstance(x, _ast.Call) and \
+                        isinstance(x.func, _ast.Attribute) and \
+                        x.func.attr == 'fromkeys' and len(x.args) == 2 and \
+                        isinstance(x.args[1], (_ast.Dict, _ast.List,
+                                               _ast.Set, _ast.Call,
+                                               _ast.DictComp,
+                                               _ast.ListComp)):
+                    bad = x
+            ctx.check(bad is None, f.qualname, 'self.%s is built with a '
+                      'distinct sub-table per key' % sorted(
+                          names & set(attrs))[0], key='shared-subtable',
+                      reason='%s: every key gets the SAME mutable object, so '
+                      '%s' % (U(bad)[:70] if bad is not None else '', what),
+                      where=where(f, node))
+    return n
